@@ -14,6 +14,13 @@ TEXT = {
  "C10": ("key-path stack balance as an inductive step from an arbitrary stack height, on symbolic inputs over the structural alphabet; end-to-end sub-type verdicts on assembled objects", "4 C10"),
  "C11": ("charset.FromPlain against an independent RFC 3629 DFA, BOM table and C1 rule for all byte strings without binary-data bytes up to the bound", "4 C11"),
  "C16": ("recursion guard as an inductive step from arbitrary 62-bit level/cap; measured interpreter call depth bounded by the cap for all inputs in the bound; pool invariant", "4 C16"),
+ "C03": ("the real match/clone/cloneHierarchy/Extend on the real 179-node tree with one solver variable per detector verdict; equality with an independent first-match walk for every verdict vector (hence inputs of any length)", "4 C03"),
+ "C04": ("purity as four obligations from adversarial pre-states: recycled JSON parser state with symbolic fields, dirtied pooled CSV reader, limit slicing, write watch on the caller's buffer", "4 C04"),
+ "C05": ("real DetectReader/DetectFile with io.ReadFull/ReadAll executed from source over a nondeterministic conforming reader (all chunkings, EOF with data, error at every offset); header handed to the walk compared byte-wise by the solver with Detect's", "4 C05"),
+ "C13": ("CSV/TSV through the real encoding/csv+bufio and NDJSON through the real scanner: survival of every cut after line 2 for symbolic tables/streams, and the converse implication on arbitrary bytes over a stated alphabet", "4 C13"),
+ "C14": ("real Extend/Lookup/match on the real tree with symbolic verdicts: position among siblings, lookup of names/aliases, unchanged results when every extension rejects, immutability of earlier results", "4 C14"),
+ "C17": ("monotonicity in the limit as one inductive step over the header length for each binary root format executed from its real code", "4 C17"),
+ "C18": ("real Tar/tarParseOctal/tarChksum on a fully symbolic 512-byte block; obligations with 512-term sums decided over Int after interval analysis shows no wrap", "4 C18"),
 }
 
 NOTE = ("trusted: go/packages+go/ssa front end, the symgo executor's instruction semantics and intrinsics (engine/symgo), z3 4.8.12, "
